@@ -37,6 +37,8 @@ type c18Scen struct {
 	SM     bool    `json:"sm,omitempty"`
 	// ErrKind: what the failing Ping returns: "" = a plain error, "timeout" = a net.Error whose Timeout() is true
 	ErrKind string `json:"errkind,omitempty"`
+	// WS: the real client runs over the WebSocket transport; its keepalive is a WebSocket ping frame
+	WS bool `json:"ws,omitempty"`
 }
 
 type stubTransport struct {
@@ -157,8 +159,8 @@ func c18Real(w *tr.Writer, tid int, sc c18Scen) error {
 	if mode == "fail2" {
 		mode = "fail"
 	}
-	w.Emit(tr.Rec{"ev": "reset", "tid": tid, "mode": mode, "iv": sc.IvMs, "failat": sc.FailAt, "quitafter": 0, "phase": "never"})
-	o := envOpts{SM: sc.SM, Keepalive: iv}
+	w.Emit(tr.Rec{"ev": "reset", "tid": tid, "mode": mode, "iv": sc.IvMs, "failat": sc.FailAt, "quitafter": 0, "phase": "never", "ws": sc.WS})
+	o := envOpts{SM: sc.SM, Keepalive: iv, WS: sc.WS}
 	if sc.Mode == "fail" || sc.Mode == "fail2" {
 		o.FailWrite, o.KeepOpen = sc.FailAt, true
 	}
@@ -174,6 +176,13 @@ func c18Real(w *tr.Writer, tid int, sc c18Scen) error {
 	w.Emit(tr.Rec{"ev": "start", "t": 0})
 	env.onWS = func(e *srv.Elem) {
 		w.Emit(tr.Rec{"ev": "ping", "i": len(e.Raw), "ok": true, "t": ms()})
+	}
+	if sc.WS {
+		wc, ok := env.conn.(*srv.WSConn)
+		if !ok || !wc.OnPing(func() { w.Emit(tr.Rec{"ev": "ping", "i": 0, "ok": true, "t": ms()}) }) {
+			env.close()
+			return fmt.Errorf("precondition: no ping spy on the WebSocket connection")
+		}
 	}
 	env.startReader()
 	if sc.Mode == "rate" {
@@ -295,6 +304,14 @@ func runC18(args []string) error {
 	for k := 1; k <= 4; k++ {
 		add(c18Scen{Mode: "fail", IvMs: 15, FailAt: k})
 		add(c18Scen{Mode: "fail", IvMs: 15, FailAt: k, SM: true})
+	}
+	// the same over the WebSocket transport (ping frames seen by the server's frame spy)
+	for _, iv := range []int{10, 25} {
+		add(c18Scen{Mode: "rate", IvMs: iv, Ticks: 12, WS: true})
+		add(c18Scen{Mode: "rate", IvMs: iv, Ticks: 12, SM: true, WS: true})
+	}
+	for k := 1; k <= 3; k++ {
+		add(c18Scen{Mode: "fail", IvMs: 15, FailAt: k, WS: true})
 	}
 	add(c18Scen{Mode: "fail2", IvMs: 15, FailAt: 1})
 	add(c18Scen{Mode: "fail2", IvMs: 15, FailAt: 2, SM: true})
